@@ -21,8 +21,8 @@ pub fn def() -> CheckDef {
     CheckDef {
         id: "C02",
         level: "exploration",
-        runs_quick: 150_000,
-        runs_thorough: 3_000_000,
+        runs_quick: 500_000,
+        runs_thorough: 10_000_000,
         rule: "seeded histories (1-12 ops: blocks via 9 call forms incl. driver scripts over the backend, restart-from-exported-state, clone) on cbc/pcbc/ige Encryptor/Decryptor over the harness cipher (block sizes 1,2,3,8,16,17,255; backend width per call from {1,2,3,5,8}) or AES-128/Magma/Kuznyechik; compared step by step with the reference recurrences. distinct = distinct (mode, block size, cipher, width policy, op-kind/call-form/size-class sequence); non-trivial = processed >= 1 block",
         required_probes: &["par_groups_then_tail", "dishonest_ciphertext", "bs1", "bs255", "restart", "script_call", "state_after_tail"],
         r#gen,
